@@ -178,38 +178,54 @@ def vc_tape_pow(H):
 
 
 def vc_tape_grade(H):
-    """TapeRecorder.grade keeps exactly the stored keys of the requested grades, each paired with its own position
-    (generic membership, key tuple of length 3; the comprehension is uniform in the length)."""
+    """TapeRecorder.grade keeps exactly the stored keys of the requested grades, each paired with its own position.
+    (a) generic membership on a key tuple of length 3 (the comprehension is uniform in the length);
+    (b) concrete requested-blade lists whose (canonical) order differs from the stored order: the (key, position) pairs must
+        stay paired whatever order the implementation emits them in."""
+    import re as _re
     fuc = H.fn(TR, 'TapeRecorder.grade')
     for form in ('ints', 'tuple'):
-        def body(ctx, form=form):
-            keys = tuple(sym(f'k{i}') for i in range(3))
-            member = [SBool(z3.Bool(f'k{i}_has_requested_grade')) for i in range(3)]
-            seen = {}
+        for scenario in ('generic-membership', 'canonical-order-differs'):
+            def body(ctx, form=form, scenario=scenario):
+                keys = tuple(sym(f'k{i}') for i in range(3))
+                member = [SBool(z3.Bool(f'k{i}_has_requested_grade')) for i in range(3)]
+                seen = {}
 
-            def contains(interp, me, item):
-                for i, k in enumerate(keys):
-                    if item is k:
-                        return member[i]
-                raise OutOfSubset('membership of an unknown key')
+                def contains(interp, me, item):
+                    for i, k in enumerate(keys):
+                        if item is k:
+                            return member[i]
+                    raise OutOfSubset('membership of an unknown key')
 
-            def gi(interp, me, idx):
-                seen['grades'] = idx
-                return sym('requested-blades', on_contains=contains)
-            alg = sym('algebra', attrs={'indices_for_grades': sym('indices_for_grades', on_getitem=gi)})
-            cls = TapeCls()
-            me = Tape(cls, alg, 'SELF', keys)
-            interp = Interp(ctx, source_name=TR)
-            r = H.closure(interp, fuc)(me, *((1, 2) if form == 'ints' else ((1, 2),)))
-            kept = [i for i in range(3) if ctx.decide(member[i].t)]
-            ctx.oblige('C11 sim: grades are looked up as a tuple', seen.get('grades') == (1, 2))
-            ok = isinstance(r, Tape) and same(tuple(r._keys), tuple(keys[i] for i in kept))
-            ctx.oblige('C11 sim: keeps exactly the stored keys of the requested grades', bool(ok), meta={'got': repr(getattr(r, '_keys', None))})
-            if ok:
-                exp = f'[SELF[idx] for idx in {tuple(kept)}]'
-                ctx.oblige('C11 sim: each kept key is paired with the value at its own position', r.expr == exp, meta={'got': r.expr, 'expected': exp})
-            return r
-        H.run_paths(fuc, f'grades-as-{form}', body)
+                def gi(interp, me, idx):
+                    seen['grades'] = idx
+                    if scenario == 'generic-membership':
+                        return sym('requested-blades', on_contains=contains)
+                    return (keys[2], sym('unstored-blade'), keys[0])       # canonical order: k2 before k0; k1 not requested
+                alg = sym('algebra', attrs={'indices_for_grades': sym('indices_for_grades', on_getitem=gi)})
+                cls = TapeCls()
+                me = Tape(cls, alg, 'SELF', keys)
+                interp = Interp(ctx, source_name=TR)
+                r = H.closure(interp, fuc)(me, *((1, 2) if form == 'ints' else ((1, 2),)))
+                if scenario == 'generic-membership':
+                    kept = [i for i in range(3) if ctx.decide(member[i].t)]
+                else:
+                    kept = [0, 2]
+                ctx.oblige('C11 sim: grades are looked up as a tuple', seen.get('grades') == (1, 2))
+                ok = isinstance(r, Tape) and isinstance(r.expr, str)
+                m = _re.fullmatch(r'\[SELF\[idx\] for idx in \(([0-9, ]*)\)\]', r.expr) if ok else None
+                ctx.oblige('C11 sim: result is a tape selecting positions of the operand', bool(m), meta={'got': getattr(r, 'expr', None)})
+                if not m:
+                    return r
+                idxs = [int(x) for x in m.group(1).replace(' ', '').split(',') if x]
+                rk = list(r._keys)
+                ctx.oblige('C11 sim: keeps exactly the stored keys of the requested grades',
+                           len(rk) == len(idxs) == len(kept) and sorted(idxs) == kept, meta={'keys': repr(rk), 'positions': idxs})
+                ctx.oblige('C11 sim: each kept key is paired with the value at its own position',
+                           len(rk) == len(idxs) and all(0 <= i < 3 and rk[j] is keys[i] for j, i in enumerate(idxs)),
+                           meta={'keys': repr(rk), 'positions': idxs})
+                return r
+            H.run_paths(fuc, f'grades-as-{form},{scenario}', body)
 
 
 def vc_tape_getattr(H):
